@@ -300,4 +300,8 @@ theorem k_encEncode_eq (F : GF.GF) (hF : TablesOK F) (cache : List Poly) (hc : C
           rw [Nat.min_eq_right (by omega), show toEncode.length - rem.length - (toEncode.length - ec) = 0 by omega]
           simp
 
+/-! non-vacuity: a fresh encoder satisfies `CacheOK` (its cache is `[1]` = g_0); the remaining hypotheses of `k_encEncode_eq`
+    are instantiated for every well-formed field and block shape in Obligations/K04bProps.lean (`gen_encode_systematic`) -/
+example : CacheOK GF.aztecParam [[1]] := ⟨by simp, fun i hi => by have : i = 0 := by simpa using hi; subst this; rfl⟩
+
 end Gzx.Obligations.K04bEnc
